@@ -91,10 +91,22 @@ def handle_search(job):
         if case.get('extforms'):
             x = lmfgen.mini_lexicon('X', '1')
             x['extends'] = {'id': 'L', 'version': '1'}
-            x['entries'] = [{'id': raw(wid), 'external': True,
-                             'forms': [{'writtenForm': f} for f in fs]}
-                            for wid, fs in sorted(case['extforms'].items()) if fs]
-            x['synsets'] = []
+            xs = case.get('extsenses') or {}
+            sp = dict(map(tuple, case['synpos']))
+            x['entries'] = []
+            for wid in sorted(set(case['extforms']) | set(xs)):
+                ee = {'id': raw(wid), 'external': True}
+                if case['extforms'].get(wid):
+                    ee['forms'] = [{'writtenForm': f} for f in case['extforms'][wid]]
+                if xs.get(wid):
+                    ee['senses'] = [{'id': raw(sid), 'synset': raw(ssid), 'meta': None} for sid, ssid in xs[wid]]
+                if len(ee) > 2:
+                    x['entries'].append(ee)
+            used = sorted({ssid for v_ in xs.values() for _, ssid in v_})
+            # synsets of L that X's senses go into are declared external; its own are new
+            x['synsets'] = [({'id': raw(ssid), 'external': True} if ssid.startswith('L|') else
+                             {'id': raw(ssid), 'ili': '', 'partOfSpeech': sp[ssid], 'meta': None})
+                            for ssid in used]
             p2 = base_dir() / 'search-ext.xml'
             p2.write_text(lmfgen.to_xml({'lmf_version': '1.1', 'lexicons': [x]}), encoding='utf-8')
             wn.add(p2, progress_handler=None)
@@ -139,6 +151,12 @@ def handle_search(job):
         except JobTimeout:
             out.append({'id': case['id'], 'timeout': True})
             continue
+        # every sense names the lexicon that declares it; the senses X hangs on words of L are X's
+        for w in o['words']:
+            w[5] = [[sid, ssid, sid.split('|', 1)[0]] for sid, ssid in w[5]]
+            for sid, ssid in (case.get('extsenses') or {}).get(w[0], []):
+                w[5].append([sid, ssid, 'X'])
+        o['synpos'] = [[ssid, pos_, ssid.split('|', 1)[0]] for ssid, pos_ in case['synpos']]
         # the further forms an in-scope extension adds to a word are forms of the word; with the
         # extension installed but not selected, the word's forms are what forms() reports for it
         if case.get('extforms') and 'X' not in case['scope']:
